@@ -16,7 +16,8 @@ if tag:
     except Exception:
         sites = []
     if sites:
-        extra = ('Two changes for this property have ALREADY been collected; they sit at:\n' +
+        third = tag.endswith('3')
+        extra = (('Four' if third else 'Two') + ' changes for this property have ALREADY been collected; they sit at:\n' +
                  ''.join('  - %s\n' % s for s in sites) +
                  'Do NOT touch those functions again. Choose other mechanisms the guarantee depends on - supporting code counts '
                  '(helpers in graph_utils.py, molecule.py, utils.py, selectors.py, parser_utils.py, truncating_formatter.py, '
@@ -24,6 +25,13 @@ if tag:
                  'wires things together). Changes whose effect depends on state left behind by an EARLIER call in the same process '
                  '(a cache hoisted to module or instance scope, a default argument that is mutated, an object shared instead of copied) '
                  'or on two sites that each look fine alone are especially welcome.\n' + extra)
+        if third:
+            extra += ('For this round look in particular at: (1) how bin/martinize2 wires the pipeline together - option parsing and defaults, '
+                      'the order of processors, what is passed from one step to the next, what happens with several chains / several molecules / '
+                      'ligands / -sep / -merge; (2) boundary relations in rarely taken branches (<, <=, first/last element, empty or single-element '
+                      'collections, zero, negative or repeated residue numbers, insertion codes, missing optional attributes); (3) the interplay of '
+                      'two steps, where the earlier one leaves something (an attribute, an ordering, a key numbering) the later one relies on; '
+                      '(4) parsing and formatting helpers shared by several modules. The change must still break THIS property.\n')
 text = """# Task: seed two property-breaking changes
 
 You are working on the Python project vermouth-martinize (Vermouth/Martinize2) in the git
